@@ -419,3 +419,39 @@ def gate_angle_band(lhs, rhs, rtol, atol, qnames):
         s_band = (tol / k) ** (1.0 / p_r)
         return (limit, 2 * _math.asin(min(1.0, s_band)), p_r, k)
     return None
+
+
+# ------------------------------------------------------------------------------------------ path selection by a sample point
+def sample_oracle(vals, default=None):
+    """An oracle that decides every data-dependent condition the way it comes out at ONE numeric valuation of the symbols (vals: name -> float): the
+    interpretation then follows the single path that valuation takes, and its results stay exact closed forms (valid on that path's whole region).
+    Used to compare two implementations arm by arm without enumerating every combination of their branch conditions."""
+    def val(at):
+        if at.name == "pi":
+            return _math.pi
+        return vals[at.name]
+
+    def num(x):
+        if isinstance(x, Rat):
+            return P.evalf(x, val)
+        return float(x)
+
+    def oracle(c, it=None):
+        try:
+            if c.op in ("argmax", "argmin"):
+                arr = np.asarray(to_obj(c.lhs), dtype=object).ravel()
+                nums = [num(x) for x in arr]
+                return int(np.argmax(nums) if c.op == "argmax" else np.argmin(nums))
+            if c.op in ("max", "min"):
+                a, b = num(c.lhs), num(c.rhs)
+                return 0 if ((a >= b) if c.op == "max" else (a <= b)) else 1
+            if c.op == "nonzero":
+                return num(c.lhs) != 0
+            l, r = num(c.lhs), num(c.rhs)
+            if c.op in ("isclose", "allclose"):
+                tol = getattr(c, "tol", None) or (1e-5, 1e-8)
+                return abs(l - r) <= tol[1] + tol[0] * abs(r)
+            return {"<": l < r, ">": l > r, "<=": l <= r, ">=": l >= r, "==": l == r, "!=": l != r}.get(c.op, default)
+        except (KeyError, TypeError, ValueError):
+            return default
+    return oracle
